@@ -170,13 +170,13 @@ func (r *Result) Finish() int {
 
 func (r *Result) writeEvidence(matched []string, unlisted int) {
 	cov := map[string]interface{}{
-		"evaluations":         r.Evaluations,
-		"distinct_nontrivial": len(r.Nontrivial),
-		"rule":                r.Rule,
-		"samples":             r.Samples,
-		"exhaustive":          r.Exhaustive,
-		"distinct_outcomes":   len(r.Outcomes),
-		"outcomes":            r.Outcomes,
+		"evaluations":            r.Evaluations,
+		"distinct_nontrivial":    len(r.Nontrivial),
+		"rule":                   r.Rule,
+		"samples":                r.Samples,
+		"exhaustive":             r.Exhaustive,
+		"distinct_outcomes":      len(r.Outcomes),
+		"outcomes":               r.Outcomes,
 		"known_findings_matched": matched,
 	}
 	if len(r.Samples) == 0 {
